@@ -46,7 +46,11 @@ where T: Types
     pub(crate) open: OpenChunk<T>,
     pub(crate) closed: BTreeMap<ChunkId, ClosedChunk<T>>,
 
-    flush_tx: SyncSender<SeqRequest<T>>,
+    /// `None` only while the WAL is being dropped.
+    flush_tx: Option<SyncSender<SeqRequest<T>>>,
+
+    /// The FlushWorker thread, joined when the WAL is dropped.
+    worker: Option<std::thread::JoinHandle<()>>,
 
     /// The next sequence number to assign. Incremented on each `send_request`.
     /// Only accessed by the main thread, so a plain `u64` suffices.
@@ -89,13 +93,14 @@ where T: Types
         let (flush_tx, rx) = std::sync::mpsc::sync_channel(1024);
         let worker = FlushWorker::new(rx, file_entry, cache, done_seq.clone());
 
-        worker.spawn();
+        let worker = worker.spawn();
 
         Self {
             config,
             open,
             closed,
-            flush_tx,
+            flush_tx: Some(flush_tx),
+            worker: Some(worker),
             sent_seq: 0,
             done_seq,
         }
@@ -106,6 +111,8 @@ where T: Types
     fn send_request(&mut self, req: WorkerRequest<T>) -> Result<(), io::Error> {
         self.sent_seq += 1;
         self.flush_tx
+            .as_ref()
+            .expect("flush_tx is only taken in drop()")
             .send(SeqRequest {
                 seq: self.sent_seq,
                 req,
@@ -295,6 +302,21 @@ where T: Types
             Ok(payload)
         } else {
             panic!("Expect Record::Append but: {:?}", record);
+        }
+    }
+}
+
+/// Dropping the WAL waits for the FlushWorker to finish the requests already
+/// sent (pending writes, syncs and chunk removals), so that nothing touches
+/// the directory after the owner is gone.
+impl<T> Drop for RaftLogWAL<T>
+where T: Types
+{
+    fn drop(&mut self) {
+        // Closing the channel makes the worker quit after the queued requests.
+        self.flush_tx.take();
+        if let Some(worker) = self.worker.take() {
+            let _ = worker.join();
         }
     }
 }
